@@ -7,6 +7,7 @@ import Emitter.Props.C03
 #print axioms Emitter.C03.permission_required
 #print axioms Emitter.C03.undecryptable_refused
 #print axioms Emitter.C03.validate_covers
+#print axioms Emitter.C03.validate_covers_exact
 #print axioms Emitter.C03.setTarget_fields
 #print axioms Emitter.C03.hash_target_covers_all
 #print axioms Emitter.C03.trailing_plus_refuted
